@@ -76,19 +76,15 @@ theorem interp_seq_get (c : Cfg) (p : TPath) (xs xs' : List Val) (h : interpList
 
 /-! ## 2. escaping: `$` ↦ `$$` with interpolation on gives back the original -/
 
-/-- `template.Substitute` undoes the escaping, for every text and environment -/
-theorem subst_escape (env : CV.Template.Env) (s : Str) : CV.Template.subst env (escapeDollars s) = .ok s :=
-  CV.TemplateC08.subst_escape env s
-
-/-- a text without `$` is not changed by substitution -/
+/-- a text without `$` is not changed by substitution (C07's `subst_lit`, restated with `∉`) -/
 theorem subst_no_dollar (env : CV.Template.Env) (s : Str) (h : '$' ∉ s) : CV.Template.subst env s = .ok s :=
-  CV.TemplateC08.subst_no_dollar env s h
+  CV.Template.subst_lit env s (fun c hc he => h (he ▸ hc))
 
 /-- typed form, per leaf: the escaped text with interpolation on denotes what the original denotes with
     interpolation off (`castOnly` = the value itself, or its cast at a cast path) -/
 theorem leaf_escape (c : Cfg) (p : TPath) (s : String) : leaf c p (escapeStr s) = castOnly c p s := by
-  have h := subst_escape c.env s.toList
-  have : (escapeStr s).toList = escapeDollars s.toList := by simp [escapeStr, String.toList_ofList]
+  have h := CV.Template.subst_escape c.env s.toList
+  have : (escapeStr s).toList = CV.Template.escapeDollars s.toList := by simp [escapeStr, String.toList_ofList]
   rw [leaf_of_subst (s' := s.toList) (by rw [this]; exact h), String.ofList_toList]
 
 /-- whole trees: writing every `$` of every value as `$$` and interpolating gives back the original tree,
@@ -112,19 +108,49 @@ theorem interp_dollar_free (c : Cfg) (p : TPath) (v : Val) (h : NoCast c.table p
 
 /-! ## 3. type transparency in the model: a variable is the literal -/
 
-/-- `${NAME}` with NAME set to `t` denotes, at every path, what the text `t` denotes with nothing to substitute -/
-theorem var_is_literal (c : Cfg) (p : TPath) (n : Str) (t : String) (hn : ValidName n) (he : c.env n = some t.toList) :
+/-- **every form of the grammar at once**: a well-formed template (any nesting of `$V`, `${V}`, `${V:-…}`, `${V:+…}`,
+    `${V:?…}`, `$$`, literal text) that the grammar evaluates to the text `t` denotes, at every path, exactly what
+    the literal `t` denotes with nothing to substitute: same typed value, same cast error (uses C07's `subst_render`) -/
+theorem template_is_literal (c : Cfg) (p : TPath) (tm : List CV.Template.Seg) (t : Str)
+    (hwf : CV.Template.WF tm = true) (he : CV.Template.evalL c.env tm = .ok t) :
+    leaf c p (String.ofList (CV.Template.renderL tm)) = castOnly c p (String.ofList t) := by
+  have h := CV.Template.subst_render c.env tm hwf
+  simp only [CV.Template.evalOut, he] at h
+  exact leaf_of_subst (by rw [String.toList_ofList]; exact h)
+
+/-- `${NAME}` with NAME set to `t` -/
+theorem var_is_literal (c : Cfg) (p : TPath) (n : Str) (t : String) (hn : CV.Template.validName n = true)
+    (he : c.env n = some t.toList) :
     leaf c p (String.ofList ('$' :: '{' :: (n ++ ['}']))) = castOnly c p t := by
-  have h := CV.TemplateC08.subst_braced_var c.env n hn
-  rw [he] at h
-  rw [leaf_of_subst (s' := t.toList) (by rw [String.toList_ofList]; exact h), String.ofList_toList]
+  have := template_is_literal c p [.var n true] t.toList (by simp [CV.Template.WF, CV.Template.wfL, CV.Template.Seg.wf, hn])
+    (by simp [CV.Template.evalL, CV.Template.Seg.eval, he])
+  simpa [CV.Template.renderL, CV.Template.Seg.render, String.ofList_toList] using this
+
+/-- `pre${NAME}post`: the value is spliced between literal text (`pre`, `post` without `$`) -/
+theorem split_is_literal (c : Cfg) (p : TPath) (n pre post v : Str) (hn : CV.Template.validName n = true)
+    (hpre : CV.Template.litOkTop pre = true) (hpost : CV.Template.litOkTop post = true) (he : c.env n = some v) :
+    leaf c p (String.ofList (pre ++ '$' :: '{' :: (n ++ ['}']) ++ post)) = castOnly c p (String.ofList (pre ++ v ++ post)) := by
+  have := template_is_literal c p [.lit pre, .var n true, .lit post] (pre ++ v ++ post)
+    (by simp [CV.Template.WF, CV.Template.wfL, CV.Template.Seg.wf, hn, hpre, hpost])
+    (by simp [CV.Template.evalL, CV.Template.Seg.eval, he])
+  simpa [CV.Template.renderL, CV.Template.Seg.render] using this
+
+/-- `${UNSET:-literal}` (and `${EMPTY:-literal}`): the default is the value -/
+theorem default_is_literal (c : Cfg) (p : TPath) (n d : Str) (hn : CV.Template.validName n = true)
+    (hd : CV.Template.litOkArg d = true) (he : c.env n = none ∨ c.env n = some []) :
+    leaf c p (String.ofList ('$' :: '{' :: (n ++ [':', '-'] ++ d ++ ['}']))) = castOnly c p (String.ofList d) := by
+  have := template_is_literal c p [.op n .colonDash [.lit d]] d
+    (by simp [CV.Template.WF, CV.Template.wfL, CV.Template.Seg.wf, hn, hd])
+    (by rcases he with he | he <;> simp [CV.Template.evalL, CV.Template.Seg.eval, CV.Template.opSpec, he])
+  simpa [CV.Template.renderL, CV.Template.Seg.render, CV.Template.Op.str] using this
 
 /-- … and so does the literal `t` itself when it contains no `$`: same typed value, same error -/
-theorem var_transparent (c : Cfg) (p : TPath) (n : Str) (t : String) (hn : ValidName n) (he : c.env n = some t.toList)
-    (hd : '$' ∉ t.toList) : leaf c p (String.ofList ('$' :: '{' :: (n ++ ['}']))) = leaf c p t := by
+theorem var_transparent (c : Cfg) (p : TPath) (n : Str) (t : String) (hn : CV.Template.validName n = true)
+    (he : c.env n = some t.toList) (hd : '$' ∉ t.toList) :
+    leaf c p (String.ofList ('$' :: '{' :: (n ++ ['}']))) = leaf c p t := by
   rw [var_is_literal c p n t hn he, leaf_of_subst (subst_no_dollar c.env _ hd), String.ofList_toList]
 
-/-- the two integer casters are the same function (toInt = Atoi, toInt64 = ParseInt base 10 / 64 bit) -/
+/-- the two integer casters are the same function (both are `parseYAMLInt`, 64 bit) -/
 theorem toInt_eq_toInt64 (fp : FloatParser) (s : String) : Caster.toInt.apply fp s = Caster.toInt64.apply fp s := rfl
 
 /-- the YAML-1.1 boolean spellings, in any ASCII case, are accepted -/
@@ -134,13 +160,34 @@ theorem parseBool_yaml11 :
     (∀ w ∈ ["", "1", "0", "t", "f", "maybe", "truee", " true", "~", "null"], parseBool w = none) := by
   decide
 
-/-- FULL STRENGTH IS FALSE (`Neg/C08.lean: literal_eq_variable_int_false`, witness `0440`): a plain YAML literal
-    `0[0-7]+` is octal for yaml.v3 but decimal for the casters.  What holds: they agree when every digit before the
-    last is `0` (e.g. `00`, `07`, `0007`). -/
-theorem literal_eq_variable_int_partial (k : Nat) (d : Char) (hd : isOctDigit d = true) :
-    yamlLegacyOctal (String.ofList ('0' :: (List.replicate k '0' ++ [d]))) =
-      parseInt (String.ofList ('0' :: (List.replicate k '0' ++ [d]))) :=
-  yamlLegacyOctal_eq_parseInt_of_zeros k d hd
+/-- **full strength since the repair "casts read numbers like YAML does"** (before it: `Neg/C08.lean`, witness `0440`):
+    every text yaml.v3 resolves as a plain `!!int` literal (underscores, `0x`/`0o`/`0b`, leading-zero octal, signs)
+    is cast to the same integer when it arrives through a variable -/
+theorem literal_eq_variable_int (s : String) (i : Int) (h : yamlInt s = some i) : parseInt s = some i := by
+  unfold yamlInt at h
+  unfold parseInt
+  split at h
+  · split at h
+    · rw [h]
+    · cases h
+  · cases h
+
+/-- the casters accept strictly more than YAML's integers only in one way: a text that is not valid octal is decimal -/
+theorem parseInt_cases (s : String) (i : Int) (h : parseInt s = some i) :
+    yamlIntCore (stripUnderscores s.toList) = some i ∨
+    (yamlIntCore (stripUnderscores s.toList) = none ∧ parseIntDecimal (stripUnderscores s.toList) = some i) := by
+  unfold parseInt at h
+  split at h
+  · rename_i j hj; cases h; exact .inl hj
+  · rename_i hj; exact .inr ⟨hj, h⟩
+
+/-- the spellings of the recorded findings, now read as YAML reads them -/
+theorem parseInt_yaml_spellings :
+    parseInt "0440" = some 288 ∧ parseInt "0x10" = some 16 ∧ parseInt "0o17" = some 15 ∧ parseInt "0b11" = some 3 ∧
+    parseInt "1_000" = some 1000 ∧ parseInt "-0x1F" = some (-31) ∧ parseInt "08" = some 8 ∧ parseInt "+7" = some 7 ∧
+    parseInt "0" = some 0 ∧ parseInt "0x" = none ∧ parseInt "1e3" = none ∧ parseInt "" = none ∧ parseInt "_" = none ∧
+    parseInt "9223372036854775808" = none ∧ parseInt "-9223372036854775808" = some (-9223372036854775808) := by
+  decide
 
 /-! ## 4. errors name the attribute path -/
 
@@ -232,15 +279,20 @@ example : NoCast CV.Gen.castTable ["x"] (.map [("a", .str "${V}$"), ("b", .seq [
   rcases hm with ⟨rfl, _⟩ | ⟨rfl, _⟩ <;> decide
 
 /-- `var_is_literal` / `var_transparent`: `V` is a valid name, and `cfg0` sets it -/
-example : ValidName ['V'] ∧ cfg0.env ['V'] = some "yes".toList ∧ '$' ∉ "yes".toList := by
-  refine ⟨⟨⟨'V', [], rfl, by decide⟩, by decide⟩, by decide, by decide⟩
+example : CV.Template.validName ['V'] = true ∧ cfg0.env ['V'] = some "yes".toList ∧ '$' ∉ "yes".toList := by
+  refine ⟨by decide, by decide, by decide⟩
+
+/-- `template_is_literal`: a nested template that is well formed and evaluates -/
+example : CV.Template.WF [.lit ['a'], .op ['U'] .colonDash [.var ['V'] true, .lit ['!']]] = true ∧
+    CV.Template.evalL cfg0.env [.lit ['a'], .op ['U'] .colonDash [.var ['V'] true, .lit ['!']]] = .ok "ayes!".toList := by
+  refine ⟨by decide, by rfl⟩
+
+/-- `literal_eq_variable_int`: YAML reads `0440` as 288, and so does the caster -/
+example : yamlInt "0440" = some 288 ∧ yamlInt "-0b11" = some (-3) ∧ yamlInt "1_0" = some 10 := by decide
 
 /-- `cast_error_names_path`, `cast_failure_is_error`: an error run whose error carries the concrete path -/
 example : interp cfg0 ["services", "a", "scale"] (.str "${V}") = .err (.cast (pathString ["services", "a", "scale"])) :=
   cast_failure_is_error cfg0 _ _ "yes".toList "toInt" (by decide) (by decide) (by rfl)
-
-/-- `literal_eq_variable_int_partial`: `007` -/
-example : isOctDigit '7' = true ∧ yamlLegacyOctal "007" = some 7 ∧ parseInt "007" = some 7 := by decide
 
 /-- `cast_lookup_perm`: the reversed table is a permutation -/
 example : (CV.Gen.castTable.reverse).Perm CV.Gen.castTable := List.reverse_perm _
